@@ -63,7 +63,8 @@ RULE = ("TLC explores the reference hierarchy VFSDir.tla exhaustively for small 
         "histories, by an enumeration of all single calls and pairs of calls from four seed states, and by replaying behaviours "
         "generated from the specification; every call is logged with status, reply and the projection of all known directories "
         "(public interface + state hook); TLC computes the set of outcomes the reference permits and judges status, resulting "
-        "contents, cookies, change counters, ChangeInfo, listings and link counts.")
+        "contents, cookies, change counters, ChangeInfo, listings, link counts and the attributes returned with a child (file type; change counter of a "
+        "child directory when lookups and listings ask for it, which takes the child-locking paths of the real code).")
 
 
 def _finish(ctx, extra):
